@@ -468,7 +468,7 @@ func GenDirective(t *rapid.T, p *Profile, pools *Pools, year *int, o JournalOpts
 		kinds = append(kinds, "include")
 	}
 	k := rapid.SampledFrom(kinds).Draw(t, "dkind")
-	if p.off("dir."+k) {
+	if p.off("dir." + k) {
 		k = "account"
 	}
 	switch k {
@@ -504,4 +504,111 @@ func GenDirective(t *rapid.T, p *Profile, pools *Pools, year *int, o JournalOpts
 	default:
 		return &m.Directive{Kind: "D", Fmt: GenFmt(t, p, rapid.SampledFrom(pools.Syms).Draw(t, "dsym"))}
 	}
+}
+
+// ---------- workspaces (DESIGN.md 4.4) ----------
+
+var WSNames = []string{"main.journal", "a.journal", "b.journal", "sub/c.journal", "sub/d.journal"}
+
+type WSFile struct {
+	Rel     string     `json:"rel"`
+	Journal *m.Journal `json:"journal"`
+}
+
+type Workspace struct {
+	Files    []WSFile `json:"files"`
+	Includes [][]int  `json:"includes"` // Includes[i]: indices of the files that file i includes, in textual order
+}
+
+type WSOpts struct {
+	MinFiles, MaxFiles int
+	Journal            JournalOpts
+	AllReachable       bool // every file is reachable from main.journal
+}
+
+func relFrom(from, to string) string {
+	fd, td := "", ""
+	if i := strings.LastIndex(from, "/"); i >= 0 {
+		fd = from[:i]
+	}
+	if i := strings.LastIndex(to, "/"); i >= 0 {
+		td = to[:i]
+	}
+	base := to[strings.LastIndex(to, "/")+1:]
+	switch {
+	case fd == td:
+		return base
+	case fd == "":
+		return to
+	case td == "":
+		return "../" + base
+	default:
+		return "../" + to
+	}
+}
+
+// GenWorkspace draws 1..n journals connected by include directives (an acyclic
+// graph rooted at main.journal, possibly with diamonds and unreachable siblings).
+func GenWorkspace(t *rapid.T, p *Profile, pools *Pools, o WSOpts) *Workspace {
+	n := rapid.IntRange(o.MinFiles, o.MaxFiles).Draw(t, "nfiles")
+	ws := &Workspace{Includes: make([][]int, n)}
+	jo := o.Journal
+	jo.NoIncludes = true
+	for i := 0; i < n; i++ {
+		ws.Files = append(ws.Files, WSFile{Rel: WSNames[i], Journal: GenJournal(t, p, pools, jo)})
+	}
+	for j := 1; j < n; j++ {
+		parents := 0
+		for i := 0; i < j; i++ {
+			pick := rapid.IntRange(0, 2).Draw(t, "edge") == 0
+			if i == j-1 && parents == 0 && (o.AllReachable || rapid.IntRange(0, 3).Draw(t, "reach") != 0) {
+				pick = true
+			}
+			if pick {
+				ws.Includes[i] = append(ws.Includes[i], j)
+				parents++
+			}
+		}
+	}
+	// place the include directives inside the including journal
+	for i := 0; i < n; i++ {
+		for _, j := range ws.Includes[i] {
+			e := m.Entry{Dir: &m.Directive{Kind: "include", Path: relFrom(ws.Files[i].Rel, ws.Files[j].Rel)}, Blank: rapid.IntRange(0, 1).Draw(t, "iblank")}
+			es := ws.Files[i].Journal.Entries
+			at := 0
+			if rapid.IntRange(0, 2).Draw(t, "iatend") == 0 {
+				at = rapid.IntRange(0, len(es)).Draw(t, "iat")
+			}
+			// never separate a Y directive from the partial dates after it is fine; any position is valid
+			es = append(es[:at:at], append([]m.Entry{e}, es[at:]...)...)
+			ws.Files[i].Journal.Entries = es
+		}
+	}
+	return ws
+}
+
+// Reachable returns the indices reachable from file root through includes (root included), in DFS preorder.
+func (ws *Workspace) Reachable(root int) []int {
+	seen := map[int]bool{}
+	var order []int
+	var visit func(i int)
+	visit = func(i int) {
+		if seen[i] {
+			return
+		}
+		seen[i] = true
+		order = append(order, i)
+		// textual order of the include directives
+		for _, e := range ws.Files[i].Journal.Entries {
+			if e.Dir != nil && e.Dir.Kind == "include" {
+				for j := range ws.Files {
+					if relFrom(ws.Files[i].Rel, ws.Files[j].Rel) == e.Dir.Path {
+						visit(j)
+					}
+				}
+			}
+		}
+	}
+	visit(root)
+	return order
 }
